@@ -31,9 +31,12 @@ CLAIMED = {
          "Exhaustive over every (year, form class, allowed instance) and every (status-keyed threshold table, filing status) pair: instantiation, declared year, unique names, metadata, name hygiene; the Lookup operator of the specification must give exactly one value per status and the real Form.threshold() must return it; the list-form-inputs template, un-commented, must parse back to exactly the declared inputs.", "6/C17"),
  "C20": ("model_checking", "TLC model checking of Session.tla (write-back in finally, every interruption point and kind, second session) + real CLI sessions judged by SessionTrace.tla",
          "Session.tla composes the solver specification with the solve command's file handling and is model-checked over every prompt index and kind of interruption on generated programs; the real command is run in-process with a scripted keyboard and interrupted at every prompt index (generated programs) and sampled indices (real returns) by Ctrl-C and end of input, other sessions end in unsupported forms, failing lines or invalid file text; file before/after and the follow-up run are judged by TLC.", "6/C20"),
+ "C19": ("exploration", "TLC decodes the real form-data (FDF) output with PdfString.tla (PDF literal-string syntax) and evaluates Fill.tla on the stand-in pdftk's recorded argv",
+         "All strings up to length 4 (thorough 5) over an adversarial alphabet go through the real _create_fdf as values and as names and are decoded back by TLC; every solved explored return (a third with adversarial text) goes through the real fill_pdfs with a recording stand-in for pdftk and Fill.tla requires: exactly the forms needing filing, once each, ordered by jurisdiction/sequence, no worksheet or input-only form, every FDF value equal to the mapped text, and an error instead of an over-long or out-of-list value.", "6/C19"),
 }
 
 NOTES = {
+ "C19": "pdftk itself is absent: verified is everything up to the bytes and argv handed to it; box lengths / choice lists are the mapping's own (compared with the templates by C18); printable ASCII",
  "C20": "real sessions are in-process calls of habutax.solve() with builtins.input replaced; file contents compared up to surrounding whitespace; quick tier samples every 9th prompt index on real returns",
  "C09": "the gate catalogue data/gates.json is a frozen, reviewed list (freshness against the current tree is reported in the thorough tier's evidence, never as a violation); gates whose input no explored return reads are listed in the evidence as gates_never_read",
  "C08": "the Official table is my transcription (internal consistency axioms checked by TLC); the list of bound lines is in Statutory.tla, lines with statutory-looking constants outside it are reported as observed_not_judged; the pairing of NC child-deduction bands with amounts is left to C02",
